@@ -46,6 +46,9 @@ type Config struct {
 	// Message 1 for another name is answered with status 0Dh (unauthorized name).
 	Username  []byte
 	CheckUser bool
+	// OpenRspPriv, if set, is the maximum privilege level placed in the Open
+	// Session Response instead of echoing the requested one.
+	OpenRspPriv *byte
 	// FollowUnknownAlgs: the BMC completes RAKP for integrity / confidentiality
 	// algorithm numbers the reference does not implement (it announced them, so
 	// it knows them); packets of such a session are opaque.
@@ -226,6 +229,9 @@ func (b *BMC) openSession(rx *Rx) {
 		if pl[0] != kind || pl[1] != 0 || pl[2] != 0 || pl[3] != 8 || pl[5] != 0 || pl[6] != 0 || pl[7] != 0 || pl[4]&0xc0 != 0 {
 			rx.problem("algorithm payload %d malformed: % x", kind, pl)
 		}
+		if pl[3] == 0 {
+			rx.Fields[fmt.Sprintf("wildcard%d", kind)] = 1
+		}
 		switch kind {
 		case 0:
 			req.Auth = pl[4] & 0x3f
@@ -262,6 +268,11 @@ func (b *BMC) openSession(rx *Rx) {
 	b.pending = s
 	b.Sessions[s.HS.SIDC] = s
 	rsp := []byte{tag, 0, d[1] & 0x0f, 0}
+	if b.Cfg.OpenRspPriv != nil {
+		// the maximum privilege level the BMC allows for the proposed algorithms
+		// may differ from the one requested (13.18)
+		rsp[2] = *b.Cfg.OpenRspPriv & 0x0f
+	}
 	rsp = append(rsp, le32(sidm)...)
 	rsp = append(rsp, le32(s.HS.SIDC)...)
 	for k, alg := range []byte{ann.Auth, ann.Integ, ann.Conf} {
